@@ -12,6 +12,7 @@
 -/
 import SvgVerif.Model.Reverse
 import Mathlib.Tactic.Ring
+import Mathlib.Data.List.Forall2
 namespace Svg
 namespace C16
 
@@ -262,6 +263,386 @@ theorem C16_involution (s r : Sub K) (hc : SubConnected s) (h : s.rev = some r) 
         | some c0 => simp [hcl c0 rfl, lastEnd_eq, Seg.end_]
 
 end subpath
+
+/-! ### whole paths: `Path.reverse()` over any number of subpaths -/
+section whole
+set_option linter.unusedSectionVars false
+variable {K : Type} [CommRing K]
+
+/-- the window with the `start` of its move replaced -/
+def withStart (x : Option (Pt K)) (s : Sub K) : Sub K :=
+  { s with move := match s.move with | .move _ e => .move x e | m => m }
+
+/-- the point a window leaves the pen at: where its close returns to, else its last end -/
+def lastOf (s : Sub K) : Pt K :=
+  match s.close with
+  | some c => c.end_
+  | none => s.lastEnd
+
+/-- the windows as `relink` lays them out: each move starts where the previous window left the pen -/
+def relinkSubs : Option (Pt K) → List (Sub K) → List (Sub K)
+  | _, [] => []
+  | prev, s :: rest => withStart prev s :: relinkSubs (some (lastOf s)) rest
+
+/-- a window as `as_subpaths` cuts it -/
+structure Shape (s : Sub K) : Prop where
+  move : ∃ st e, s.move = .move st e
+  drawn : ∀ d ∈ s.drawn, d.isMove = false ∧ d.isClose = false
+  close : ∀ c, s.close = some c → c.isClose = true
+
+theorem relink_eq (prev : Option (Pt K)) (ss : List (Sub K)) (h : ∀ s ∈ ss, Shape s) :
+    relink prev ss = (relinkSubs prev ss).flatMap Sub.toList := by
+  induction ss generalizing prev with
+  | nil => rfl
+  | cons s rest ih =>
+    obtain ⟨st, e, hm⟩ := (h s List.mem_cons_self).move
+    simp only [relink, relinkSubs, List.flatMap_cons, Sub.toList, withStart, hm, lastOf]
+    rw [ih _ (fun q hq => h q (List.mem_cons_of_mem _ hq))]
+    cases prev <;> rfl
+
+theorem takeDrawn_app (d : List (Seg K)) (hd : ∀ x ∈ d, x.isMove = false ∧ x.isClose = false)
+    (c : Option (Seg K)) (hc : ∀ cc, c = some cc → cc.isClose = true) (T : List (Seg K))
+    (hT : c = none → T = [] ∨ ∃ m r, T = m :: r ∧ m.isMove = true ∧ m.isClose = false) :
+    takeDrawn (d ++ ((match c with | some cc => [cc] | none => []) ++ T)) = (d, c, T) := by
+  induction d with
+  | nil =>
+    cases c with
+    | some cc => simp [takeDrawn, hc cc rfl]
+    | none =>
+      rcases hT rfl with rfl | ⟨m, r, rfl, hm, hmc⟩
+      · simp [takeDrawn]
+      · simp [takeDrawn, hm, hmc]
+  | cons x rest ih =>
+    have hx := hd x List.mem_cons_self
+    have := ih (fun y hy => hd y (List.mem_cons_of_mem _ hy))
+    simp only [List.cons_append, takeDrawn, hx.1, hx.2, Bool.false_eq_true, if_false, this]
+
+theorem head_flat (ss : List (Sub K)) (h : ∀ s ∈ ss, Shape s) :
+    ss.flatMap Sub.toList = [] ∨ ∃ m r, ss.flatMap Sub.toList = m :: r ∧ m.isMove = true ∧ m.isClose = false := by
+  cases ss with
+  | nil => left; rfl
+  | cons s rest =>
+    right
+    obtain ⟨st, e, hm⟩ := (h s List.mem_cons_self).move
+    refine ⟨s.move, (s.drawn ++ (match s.close with | some c => [c] | none => [])) ++ rest.flatMap Sub.toList, ?_, by simp [hm, Seg.isMove], by simp [hm, Seg.isClose]⟩
+    simp only [List.flatMap_cons, Sub.toList, List.cons_append]
+    cases s.close <;> rfl
+
+theorem splitOwn_flat (ss : List (Sub K)) (h : ∀ s ∈ ss, Shape s) : splitOwn (ss.flatMap Sub.toList) = some ss := by
+  induction ss with
+  | nil => simp [splitOwn]
+  | cons s rest ih =>
+    have hs := h s List.mem_cons_self
+    have hr : ∀ q ∈ rest, Shape q := fun q hq => h q (List.mem_cons_of_mem _ hq)
+    obtain ⟨st, e, hm⟩ := hs.move
+    have htd := takeDrawn_app s.drawn hs.drawn s.close hs.close (rest.flatMap Sub.toList) (fun _ => head_flat rest hr)
+    obtain ⟨mv, dr, cl⟩ := s
+    simp only at hm htd
+    subst hm
+    cases cl with
+    | none =>
+      simp only [List.flatMap_cons, Sub.toList, List.cons_append, List.append_nil, List.nil_append] at htd ⊢
+      rw [splitOwn]
+      simp only [Seg.isMove, if_true, htd, ih hr]
+    | some c =>
+      simp only [List.flatMap_cons, Sub.toList, List.cons_append, List.append_assoc, List.nil_append] at htd ⊢
+      rw [splitOwn]
+      simp only [Seg.isMove, if_true, htd, ih hr]
+
+theorem rev_kind (s r : Seg K) (h : Seg.rev s = some r) : r.isMove = s.isMove ∧ r.isClose = s.isClose := by
+  cases s with
+  | line st e => cases st <;> simp [Seg.rev] at h; subst h; simp [Seg.isMove, Seg.isClose]
+  | close st e => cases st <;> simp [Seg.rev] at h; subst h; simp [Seg.isMove, Seg.isClose]
+  | move st e => cases st <;> simp [Seg.rev] at h; subst h; simp [Seg.isMove, Seg.isClose]
+  | quad a b c => simp [Seg.rev] at h; subst h; simp [Seg.isMove, Seg.isClose]
+  | cubic a b c d => simp [Seg.rev] at h; subst h; simp [Seg.isMove, Seg.isClose]
+  | arc a => simp [Seg.rev] at h; subst h; simp [Seg.isMove, Seg.isClose]
+
+theorem revAll_kinds : ∀ (l rl : List (Seg K)), revAll l = some rl →
+    (∀ x ∈ l, x.isMove = false ∧ x.isClose = false) → ∀ y ∈ rl, y.isMove = false ∧ y.isClose = false := by
+  intro l
+  induction l with
+  | nil => intro rl h _ y hy; simp [revAll] at h; subst h; cases hy
+  | cons s rest ih =>
+    intro rl h hk y hy
+    unfold revAll at h
+    cases ha : Seg.rev s with
+    | none => simp [ha] at h
+    | some a =>
+      cases hb : revAll rest with
+      | none => simp [ha, hb] at h
+      | some b =>
+        simp [ha, hb] at h; subst h
+        rcases List.mem_cons.mp hy with rfl | hy
+        · have := rev_kind s y ha
+          have hs := hk s List.mem_cons_self
+          rw [this.1, this.2]; exact hs
+        · exact ih b hb (fun x hx => hk x (List.mem_cons_of_mem _ hx)) y hy
+
+theorem shape_rev (s r : Sub K) (hs : Shape s) (h : s.rev = some r) : Shape r := by
+  obtain ⟨⟨st, e, hm⟩, hd, hc⟩ := hs
+  unfold Sub.rev at h
+  cases hr : revAll s.drawn with
+  | none => simp [hr] at h
+  | some rd =>
+    simp only [hr] at h
+    split at h
+    · cases h; exact ⟨⟨st, e, hm⟩, hd, hc⟩
+    · cases h
+      refine ⟨⟨st, s.lastEnd, by simp [hm]⟩, ?_, ?_⟩
+      · intro d hdm
+        exact revAll_kinds _ _ hr hd d (List.mem_reverse.mp hdm)
+      · intro c hcc
+        cases hsc : s.close with
+        | none => simp [hsc] at hcc
+        | some c0 => simp [hsc] at hcc; subst hcc; rfl
+
+theorem shape_withStart (x : Option (Pt K)) (s : Sub K) (hs : Shape s) : Shape (withStart x s) := by
+  obtain ⟨⟨st, e, hm⟩, hd, hc⟩ := hs
+  exact ⟨⟨x, e, by simp [withStart, hm]⟩, hd, hc⟩
+
+theorem lastOf_withStart (x : Option (Pt K)) (s : Sub K) (hs : Shape s) : lastOf (withStart x s) = lastOf s := by
+  obtain ⟨⟨st, e, hm⟩, hd, hc⟩ := hs
+  simp [lastOf, withStart, hm, Sub.lastEnd, Seg.end_]
+
+theorem rev_withStart (x : Option (Pt K)) (s : Sub K) (hs : Shape s) :
+    (withStart x s).rev = (s.rev).map (withStart x) := by
+  obtain ⟨⟨st, e, hm⟩, hd, hc⟩ := hs
+  obtain ⟨mv, dr, cl⟩ := s
+  simp only at hm
+  subst hm
+  unfold Sub.rev
+  simp only [withStart]
+  cases hr : revAll dr with
+  | none => simp
+  | some rd =>
+    by_cases he : dr.isEmpty = true
+    · simp [he, withStart]
+    · simp [he, withStart, Sub.lastEnd, Seg.end_]
+
+theorem connected_withStart (x : Option (Pt K)) (s : Sub K) (hs : SubConnected s) : SubConnected (withStart x s) := by
+  obtain ⟨⟨st, e, hm⟩, hch, hcl⟩ := hs
+  obtain ⟨mv, dr, cl⟩ := s
+  simp only at hm
+  subst hm
+  exact ⟨⟨x, e, rfl⟩, hch, hcl⟩
+
+/-- same window up to the `start` remembered by its move -/
+def UpToStart (s' s : Sub K) : Prop := ∃ x, s' = withStart x s
+
+theorem relink_upToStart (S' S : List (Sub K)) (h : List.Forall₂ UpToStart S' S) (hs : ∀ s ∈ S, Shape s) :
+    ∀ prev, relink prev S' = relink prev S := by
+  induction h with
+  | nil => intro prev; rfl
+  | @cons s' s R' R hx _ ih =>
+    intro prev
+    obtain ⟨x, rfl⟩ := hx
+    have hsh := hs s List.mem_cons_self
+    obtain ⟨st, e, hm⟩ := hsh.move
+    have hl := lastOf_withStart x s hsh
+    obtain ⟨mv, dr, cl⟩ := s
+    simp only at hm
+    subst hm
+    simp only [lastOf, withStart] at hl
+    simp only [relink, withStart]
+    rw [ih (fun q hq => hs q (List.mem_cons_of_mem _ hq))]
+    cases prev <;> cases cl <;> simp_all [Sub.lastEnd]
+
+theorem relinkSubs_upToStart (prev : Option (Pt K)) (ss : List (Sub K)) :
+    List.Forall₂ UpToStart (relinkSubs prev ss) ss := by
+  induction ss generalizing prev with
+  | nil => exact List.Forall₂.nil
+  | cons s rest ih => exact List.Forall₂.cons ⟨prev, rfl⟩ (ih _)
+
+theorem mapM_forall2 {α β : Type} (f : α → Option β) : ∀ (l : List α) (l' : List β), l.mapM f = some l' →
+    List.Forall₂ (fun a b => f a = some b) l l' := by
+  intro l
+  induction l with
+  | nil => intro l' h; simp at h; subst h; exact List.Forall₂.nil
+  | cons a rest ih =>
+    intro l' h
+    rw [List.mapM_cons] at h
+    cases ha : f a with
+    | none => simp [ha] at h
+    | some b =>
+      cases hb : rest.mapM f with
+      | none => simp [ha, hb] at h
+      | some bs =>
+        simp [ha, hb] at h
+        subst h
+        exact List.Forall₂.cons ha (ih bs hb)
+
+theorem forall2_mapM {α β : Type} (f : α → Option β) : ∀ (l : List α) (l' : List β),
+    List.Forall₂ (fun a b => f a = some b) l l' → l.mapM f = some l' := by
+  intro l l' h
+  induction h with
+  | nil => rfl
+  | cons ha _ ih => rw [List.mapM_cons, ha, ih]; rfl
+
+/-- reversing the re-linked windows of reversed windows gives the originals back, up to the starts -/
+theorem rev_relinkSubs (R S : List (Sub K)) (h : List.Forall₂ (fun r s => Sub.rev r = some s) R S)
+    (hs : ∀ r ∈ R, Shape r) : ∀ prev, ∃ S', (relinkSubs prev R).mapM Sub.rev = some S' ∧ List.Forall₂ UpToStart S' S := by
+  induction h with
+  | nil => intro prev; exact ⟨[], rfl, List.Forall₂.nil⟩
+  | @cons r s R' S0 hr _ ih =>
+    intro prev
+    obtain ⟨S', h1, h2⟩ := ih (fun q hq => hs q (List.mem_cons_of_mem _ hq)) (some (lastOf r))
+    refine ⟨withStart prev s :: S', ?_, List.Forall₂.cons ⟨prev, rfl⟩ h2⟩
+    simp only [relinkSubs]
+    rw [List.mapM_cons, rev_withStart prev r (hs r List.mem_cons_self), hr, h1]
+    rfl
+
+theorem relink_first (R : List (Sub K)) (hne : R ≠ []) (hsh : ∀ r ∈ R, Shape r) (p0 : Option (Pt K)) :
+    (match relink none R, p0 with
+      | .move _ e :: rest, p => some (Seg.move p e :: rest)
+      | o, _ => some o) = some (relink p0 R) := by
+  cases R with
+  | nil => exact absurd rfl hne
+  | cons r R' =>
+    obtain ⟨st, e, hm⟩ := (hsh r List.mem_cons_self).move
+    simp only [relink, hm]
+    cases p0 <;> rfl
+
+theorem forall2_shape_rev (A B : List (Sub K)) (h : List.Forall₂ (fun a b => Sub.rev a = some b) A B)
+    (hs : ∀ a ∈ A, Shape a) : ∀ b ∈ B, Shape b := by
+  induction h with
+  | nil => intro b hb; cases hb
+  | @cons a b A' B' hab _ ih =>
+    intro c hc
+    rcases List.mem_cons.mp hc with rfl | hc
+    · exact shape_rev a c (hs a List.mem_cons_self) hab
+    · exact ih (fun q hq => hs q (List.mem_cons_of_mem _ hq)) c hc
+
+theorem shapes_relinkSubs (p0 : Option (Pt K)) (ss : List (Sub K)) (hs : ∀ s ∈ ss, Shape s) :
+    ∀ s ∈ relinkSubs p0 ss, Shape s := by
+  induction ss generalizing p0 with
+  | nil => intro s h; cases h
+  | cons a rest ih =>
+    intro s h
+    simp only [relinkSubs] at h
+    rcases List.mem_cons.mp h with rfl | h
+    · exact shape_withStart _ _ (hs a List.mem_cons_self)
+    · exact ih _ (fun q hq => hs q (List.mem_cons_of_mem _ hq)) s h
+
+/-- `Path.reverse()` on a path in linked form, in terms of its windows -/
+theorem pathReverse_relink (p0 : Option (Pt K)) (ss : List (Sub K)) (hs : ∀ s ∈ ss, Shape s) :
+    pathReverse (relink p0 ss) = ((relinkSubs p0 ss).mapM Sub.rev).map (fun rs => relink p0 rs.reverse) := by
+  cases ss with
+  | nil => rfl
+  | cons s rest =>
+    obtain ⟨st, e, hm⟩ := (hs s List.mem_cons_self).move
+    have hp : ∃ tail, relink p0 (s :: rest) = Seg.move p0 e :: tail := by
+      refine ⟨(s.drawn ++ (match s.close with | some c => [c] | none => [])) ++ relink (some (lastOf s)) rest, ?_⟩
+      simp only [relink, hm, lastOf, List.cons_append]
+      cases p0 <;> rfl
+    obtain ⟨tail, hp⟩ := hp
+    have hsplit : splitOwn (Seg.move p0 e :: tail) = some (relinkSubs p0 (s :: rest)) := by
+      rw [← hp, relink_eq _ _ hs]
+      exact splitOwn_flat _ (shapes_relinkSubs p0 _ hs)
+    rw [hp]
+    unfold pathReverse
+    simp only [hsplit]
+    cases hm2 : (relinkSubs p0 (s :: rest)).mapM Sub.rev with
+    | none => rfl
+    | some rs =>
+      have hf := mapM_forall2 _ _ _ hm2
+      have hshape := forall2_shape_rev _ _ hf (shapes_relinkSubs p0 _ hs)
+      have hne : rs.reverse ≠ [] := by
+        cases hf with
+        | cons _ _ => simp
+      simp only [Option.map, Seg.start?]
+      exact relink_first rs.reverse hne (fun r hr => hshape r (List.mem_reverse.mp hr)) p0
+
+theorem forall2_involution (A B : List (Sub K)) (h : List.Forall₂ (fun a b => Sub.rev a = some b) A B)
+    (hc : ∀ a ∈ A, SubConnected a) : List.Forall₂ (fun b a => Sub.rev b = some a) B A := by
+  induction h with
+  | nil => exact List.Forall₂.nil
+  | @cons a b A' B' hab _ ih =>
+    exact List.Forall₂.cons (C16_involution a b (hc a List.mem_cons_self) hab)
+      (ih (fun q hq => hc q (List.mem_cons_of_mem _ hq)))
+
+theorem connected_relinkSubs (p0 : Option (Pt K)) (ss : List (Sub K)) (hc : ∀ s ∈ ss, SubConnected s) :
+    ∀ s ∈ relinkSubs p0 ss, SubConnected s := by
+  induction ss generalizing p0 with
+  | nil => intro s h; cases h
+  | cons a rest ih =>
+    intro s h
+    simp only [relinkSubs] at h
+    rcases List.mem_cons.mp h with rfl | h
+    · exact connected_withStart _ _ (hc a List.mem_cons_self)
+    · exact ih _ (fun q hq => hc q (List.mem_cons_of_mem _ hq)) s h
+
+/-- **Whole-path involution.** For every path in linked form — any number of subpaths, each with
+    its own move, drawn segments and optional close, each connected, every move remembering where
+    the previous subpath left the pen (what the parser and `+=` build) — reversing the reversed
+    path restores the path exactly: same segments, same order, same starts. -/
+theorem C16_path_involution (p0 : Option (Pt K)) (ss : List (Sub K)) (hs : ∀ s ∈ ss, Shape s)
+    (hc : ∀ s ∈ ss, SubConnected s) (q : List (Seg K)) (h : pathReverse (relink p0 ss) = some q) :
+    pathReverse q = some (relink p0 ss) := by
+  rw [pathReverse_relink p0 ss hs] at h
+  cases hm : (relinkSubs p0 ss).mapM Sub.rev with
+  | none => rw [hm] at h; cases h
+  | some rs =>
+    rw [hm] at h
+    simp only [Option.map] at h
+    injection h with h
+    subst h
+    have hf := mapM_forall2 _ _ _ hm
+    have hsh_sub := shapes_relinkSubs p0 ss hs
+    have hsh_rs := forall2_shape_rev _ _ hf hsh_sub
+    have hinv := forall2_involution _ _ hf (connected_relinkSubs p0 ss hc)
+    have hinv' : List.Forall₂ (fun r s => Sub.rev r = some s) rs.reverse (relinkSubs p0 ss).reverse :=
+      List.rel_reverse hinv
+    have hsh_rr : ∀ r ∈ rs.reverse, Shape r := fun r hr => hsh_rs r (List.mem_reverse.mp hr)
+    rw [pathReverse_relink p0 rs.reverse hsh_rr]
+    obtain ⟨S', h1, h2⟩ := rev_relinkSubs rs.reverse _ hinv' hsh_rr p0
+    rw [h1]
+    simp only [Option.map]
+    have h3 : List.Forall₂ UpToStart S'.reverse (relinkSubs p0 ss) := by
+      have := List.rel_reverse h2
+      rwa [List.reverse_reverse] at this
+    rw [relink_upToStart _ _ h3 hsh_sub p0, relink_upToStart _ _ (relinkSubs_upToStart p0 ss) hs p0]
+
+/-- the reversed path is again in linked form with as many subpaths, in reverse order -/
+theorem C16_path_reverse_windows (p0 : Option (Pt K)) (ss : List (Sub K)) (hs : ∀ s ∈ ss, Shape s)
+    (q : List (Seg K)) (h : pathReverse (relink p0 ss) = some q) :
+    ∃ rs, List.Forall₂ (fun s r => Sub.rev s = some r) (relinkSubs p0 ss) rs ∧ q = relink p0 rs.reverse := by
+  rw [pathReverse_relink p0 ss hs] at h
+  cases hm : (relinkSubs p0 ss).mapM Sub.rev with
+  | none => rw [hm] at h; cases h
+  | some rs =>
+    rw [hm] at h
+    simp only [Option.map] at h
+    injection h with h
+    exact ⟨rs, mapM_forall2 _ _ _ hm, h.symm⟩
+
+end whole
+
+/-- non-vacuity: a closed subpath with a curve followed by an open one meets every hypothesis of the
+    whole-path theorems, and the model reverses it -/
+def exSubs : List (Sub ℤ) :=
+  [⟨.move none ⟨0, 0⟩, [.line (some ⟨0, 0⟩) ⟨1, 0⟩, .quad ⟨1, 0⟩ ⟨2, 2⟩ ⟨3, 0⟩], some (.close (some ⟨3, 0⟩) ⟨0, 0⟩)⟩,
+   ⟨.move none ⟨5, 5⟩, [.line (some ⟨5, 5⟩) ⟨6, 5⟩], none⟩]
+
+example : (∀ s ∈ exSubs, Shape s) ∧ (∀ s ∈ exSubs, SubConnected s) ∧ (pathReverse (relink none exSubs)).isSome = true := by
+  refine ⟨?_, ?_, ?_⟩
+  · intro s hs
+    simp only [exSubs, List.mem_cons, List.not_mem_nil, or_false] at hs
+    rcases hs with rfl | rfl
+    · exact ⟨⟨_, _, rfl⟩, by simp [Seg.isMove, Seg.isClose], by simp [Seg.isClose]⟩
+    · exact ⟨⟨_, _, rfl⟩, by simp [Seg.isMove, Seg.isClose], by simp⟩
+  · intro s hs
+    simp only [exSubs, List.mem_cons, List.not_mem_nil, or_false] at hs
+    rcases hs with rfl | rfl
+    · exact ⟨⟨_, _, rfl⟩, by simp [ChainFrom, Seg.start?, Seg.end_], by simp [Sub.lastEnd, Seg.end_]⟩
+    · exact ⟨⟨_, _, rfl⟩, by simp [ChainFrom, Seg.start?, Seg.end_], by simp⟩
+  · rw [pathReverse_relink none exSubs]
+    · rfl
+    · intro s hs
+      simp only [exSubs, List.mem_cons, List.not_mem_nil, or_false] at hs
+      rcases hs with rfl | rfl
+      · exact ⟨⟨_, _, rfl⟩, by simp [Seg.isMove, Seg.isClose], by simp [Seg.isClose]⟩
+      · exact ⟨⟨_, _, rfl⟩, by simp [Seg.isMove, Seg.isClose], by simp⟩
 
 end C16
 end Svg
